@@ -137,6 +137,26 @@ CLAIMED = {
                   "empty containers, docstring vocabulary for documented exceptions",
         design="DESIGN.md §4 C12, appendix B.4",
     ),
+    "C01": dict(
+        level="other",
+        text="Structural clauses of the open/save round trip: (R1.1) the content-types writer gives every part exactly one "
+             "declaration keyed by its own extension / name with its own type, never lets two parts of one extension but different "
+             "listed types share a Default (the Default table is folded; extensions with several types require the Override "
+             "fall-back), emits every computed Default and Override, and the reader resolves Override before Default over "
+             "lower-cased keys through a dictionary whose lookup, membership and store all lower-case; (R1.2) iter_parts / "
+             "iter_rels follow the visit-once idiom, skip external relationships before touching target_part, yield every "
+             "relationship unfiltered, save() hands the writer tuple(iter_parts()) and the package relationships, and the writer "
+             "unconditionally writes content types, package relationships, every part and the relationship item of every part "
+             "that has relationships; (R1.3) relationships are serialised and re-read field by field (rId, reltype, target_ref, "
+             "External iff is_external; Id/Type/Target/TargetMode as in opc-relationships.xsd), loading keeps every "
+             "relationship except internal ones whose target is absent; (R1.4) the loader builds each part from its own name, that "
+             "name's content type and that name's bytes, and Part / XmlPart / every load() override pass them through unchanged. "
+             "NOT decided: byte identity, XML equivalence, idempotence of a second save, relative-reference arithmetic (C19).",
+        technique="static analysis: constant folding of the Default table, two-way-split and conflict-guard check of the writer "
+                  "decision, reader precedence order, visit-once idiom check on the generators, positional field pass-through "
+                  "tracing between serialiser, element factory and loader, attribute names against the OPC schema",
+        design="DESIGN.md §4 C01",
+    ),
     "C14": dict(
         level="other",
         text="Structural clauses of table rectangularity and merge consistency: in _Cell.merge the same-table and "
@@ -217,7 +237,7 @@ CLAIMED = {
 _NOT_BUILT = "decidable structural clause designed in DESIGN.md but its checker is not built yet"
 
 NOT_APPLICABLE = {
-    "C01": _NOT_BUILT, "C02": _NOT_BUILT, "C04": _NOT_BUILT,
+    "C02": _NOT_BUILT, "C04": _NOT_BUILT,
     "C06": _NOT_BUILT, "C08": _NOT_BUILT, "C09": _NOT_BUILT,
     "C12": _NOT_BUILT, "C13": _NOT_BUILT,
     "C16": _NOT_BUILT, "C17": _NOT_BUILT, "C18": _NOT_BUILT,
